@@ -21,6 +21,7 @@ type loopInfo struct {
 	order   []*ssa.BasicBlock // blocks in RPO
 	freshPhis map[*ssa.Phi]bool
 	rangeLoop bool // header phi is the previous index, the body works on phi+1
+	ghostWritten map[string]bool // ghost variables whose value differs at a back edge (from the dry runs)
 }
 
 type edgeState struct {
@@ -709,6 +710,24 @@ func (b *bodyRun) runLoop(li *loopInfo) {
 		e.writes = oldW
 		b.pending, b.rets, b.back, b.prepared = saveP, saveR, saveB, savePrep
 		grew := false
+		for _, es := range dryBacks {
+			for k, v := range es.st.ghost {
+				hv, ok := st.ghost[k]
+				same := ok
+				if ok {
+					a, isA := v.(Scalar)
+					b2, isB := hv.(Scalar)
+					same = isA && isB && a.T == b2.T
+				}
+				if !same && !li.ghostWritten[k] {
+					if li.ghostWritten == nil {
+						li.ghostWritten = map[string]bool{}
+					}
+					li.ghostWritten[k] = true
+					grew = true
+				}
+			}
+		}
 		for k, l := range found {
 			// only what a *continuing* iteration leaves behind is carried to the
 			// next one: a location written solely on paths that leave the loop
@@ -891,8 +910,8 @@ func (b *bodyRun) havoc(st *State, phis []*ssa.Phi, writes map[string]*Loc, li *
 		}
 		sort.Strings(gks)
 		for _, k := range gks {
-			if k == "deadline" || k == "start" {
-				ng[k] = st.ghost[k] // fixed before the loop
+			if !li.ghostWritten[k] {
+				ng[k] = st.ghost[k] // not assigned inside the loop
 				continue
 			}
 			ng[k] = e.havocLike(st.ghost[k], fmt.Sprintf("%s_ghost_%s_l%d", b.fn.Name(), k, li.ordinal))
